@@ -8,6 +8,7 @@ import (
 	"crypto/elliptic"
 	"crypto/rand"
 	"crypto/rsa"
+	"crypto/sha1"
 	"crypto/x509"
 	"crypto/x509/pkix"
 	"embed"
@@ -138,6 +139,9 @@ type Spec struct {
 	Serial             *big.Int // if non-nil, the serial number (default: a fresh one)
 	Key                crypto.Signer
 	CRLSign            bool
+	// SKI: a non-CA certificate carries a subject key identifier (the SHA-1 of its public key, as issuing
+	// CAs commonly do); crypto/x509 adds one to CA certificates by itself
+	SKI bool
 }
 
 var (
@@ -187,6 +191,12 @@ func Mint(spec Spec, parent *Cert) *Cert {
 	} else {
 		tmpl.KeyUsage = x509.KeyUsageDigitalSignature
 		tmpl.ExtKeyUsage = spec.EKU
+	}
+	if spec.SKI {
+		if pub, err := x509.MarshalPKIXPublicKey(spec.Key.Public()); err == nil {
+			h := sha1.Sum(pub)
+			tmpl.SubjectKeyId = h[:]
+		}
 	}
 	if spec.NoKeyUsage {
 		tmpl.KeyUsage = 0
